@@ -95,7 +95,11 @@ func runC14(c *Ctx) {
 	gG2.msmRaw = c14MsmRawOf[*bls12381.PointG2, bls12381Impl.G2Point, *bls12381Impl.G2Point](func(p *bls12381.PointG2) *bls12381Impl.G2Point { return &p.V },
 		func(v *bls12381Impl.G2Point) *bls12381.PointG2 { var r bls12381.PointG2; r.V = *v; return &r })
 	gEd.msmRaw = c14MsmRawOf[*edwards25519.PrimeSubGroupPoint, edwards25519Impl.Point, *edwards25519Impl.Point](func(p *edwards25519.PrimeSubGroupPoint) *edwards25519Impl.Point { return &p.V },
-		func(v *edwards25519Impl.Point) *edwards25519.PrimeSubGroupPoint { var r edwards25519.PrimeSubGroupPoint; r.V = *v; return &r })
+		func(v *edwards25519Impl.Point) *edwards25519.PrimeSubGroupPoint {
+			var r edwards25519.PrimeSubGroupPoint
+			r.V = *v
+			return &r
+		})
 
 	q := 1
 	if c.Thorough() {
@@ -113,28 +117,34 @@ func runC14(c *Ctx) {
 
 	// ---- windowed ladder and bucket MSM at every threshold of mul.go (c14_window.go)
 	gEdFull, gC25519 := mkEdFull(c), mkCurve25519(c)
+	dense := func(maxK, longFrom int) c14WindowPlan { return c14WindowPlan{maxK: maxK, longFrom: longFrom, keep: 1} }
+	sparse := func(maxK int) c14WindowPlan {
+		return c14WindowPlan{maxK: maxK, longFrom: 32, fullAt: []int{8, 16}, keep: 3}
+	}
 	if c.Thorough() {
 		c14RunParallel(c, 4,
-			func(s *Ctx) { runWindow(s, gK, 1, 16, 1<<17) },
-			func(s *Ctx) { runWindow(s, gEd, 7, 16, 1<<13) },
-			func(s *Ctx) { runWindow(s, gP, 2, 16, 1<<12) },
-			func(s *Ctx) { runWindow(s, gPa, 3, 16, 1<<12) },
-			func(s *Ctx) { runWindow(s, gVe, 4, 16, 1<<12) },
-			func(s *Ctx) { runWindow(s, gG1, 5, 16, 1<<11) },
-			func(s *Ctx) { runWindow(s, gG2, 6, 16, 1<<10) },
-			func(s *Ctx) { runWindow(s, gEdFull, 8, 13, 1<<10) },
-			func(s *Ctx) { runWindow(s, gC25519, 9, 0, 0) })
+			func(s *Ctx) { runWindow(s, gK, 1, dense(16, 1<<17)) },
+			func(s *Ctx) { runWindow(s, gEd, 7, dense(16, 1<<13)) },
+			func(s *Ctx) { runWindow(s, gP, 2, dense(16, 1<<12)) },
+			func(s *Ctx) { runWindow(s, gPa, 3, dense(16, 1<<12)) },
+			func(s *Ctx) { runWindow(s, gVe, 4, dense(16, 1<<12)) },
+			func(s *Ctx) { runWindow(s, gG1, 5, dense(16, 1<<11)) },
+			func(s *Ctx) { runWindow(s, gG2, 6, dense(16, 1<<10)) },
+			func(s *Ctx) { runWindow(s, gEdFull, 8, dense(13, 1<<10)) },
+			func(s *Ctx) { runWindow(s, gC25519, 9, dense(0, 0)) })
 	} else {
 		c14RunParallel(c, 4,
-			func(s *Ctx) { runWindow(s, gK, 1, 16, 1<<12) },
-			func(s *Ctx) { runWindow(s, gEd, 7, 13, 1<<10) },
-			func(s *Ctx) { runWindow(s, gP, 2, 12, 1<<9) },
-			func(s *Ctx) { runWindow(s, gPa, 3, 12, 1<<9) },
-			func(s *Ctx) { runWindow(s, gVe, 4, 12, 1<<9) },
-			func(s *Ctx) { runWindow(s, gG1, 5, 12, 1<<8) },
-			func(s *Ctx) { runWindow(s, gG2, 6, 11, 1<<7) },
-			func(s *Ctx) { runWindow(s, gEdFull, 8, 11, 1<<7) },
-			func(s *Ctx) { runWindow(s, gC25519, 9, 0, 0) })
+			func(s *Ctx) {
+				runWindow(s, gK, 1, c14WindowPlan{maxK: 16, longFrom: 1 << 12, keep: 1, hugeFrom: 1<<14 - 1})
+			},
+			func(s *Ctx) { runWindow(s, gEd, 7, sparse(13)) },
+			func(s *Ctx) { runWindow(s, gP, 2, sparse(12)) },
+			func(s *Ctx) { runWindow(s, gPa, 3, sparse(12)) },
+			func(s *Ctx) { runWindow(s, gVe, 4, sparse(12)) },
+			func(s *Ctx) { runWindow(s, gG1, 5, sparse(12)) },
+			func(s *Ctx) { runWindow(s, gG2, 6, sparse(11)) },
+			func(s *Ctx) { runWindow(s, gEdFull, 8, sparse(11)) },
+			func(s *Ctx) { runWindow(s, gC25519, 9, c14WindowPlan{keep: 3}) })
 	}
 
 	// ---- raw projective / extended formulas at the impl level
